@@ -54,11 +54,12 @@ REJECTIONS = (AbstractAssert, AbstractRaise, AbstractError)
 
 
 class Env(object):
-    __slots__ = ("vars", "parent")
+    __slots__ = ("vars", "parent", "redirect")
 
     def __init__(self, parent=None, vars=None):
         self.vars = {} if vars is None else vars
         self.parent = parent
+        self.redirect = None  # name -> owning Env, for names declared global / nonlocal
 
     def lookup(self, name):
         e = self
@@ -413,6 +414,19 @@ def py_pow(a, b):
     return operator.pow(a, b)
 
 
+def _has_own_yield(fn):
+    """Does the function body yield (not counting nested function definitions)?"""
+    todo = list(fn.body)
+    while todo:
+        n = todo.pop()
+        if isinstance(n, (ast.Yield, ast.YieldFrom)):
+            return True
+        if isinstance(n, (ast.FunctionDef, ast.AsyncFunctionDef, ast.Lambda, ast.ClassDef)):
+            continue
+        todo.extend(ast.iter_child_nodes(n))
+    return False
+
+
 class Interp(object):
     def __init__(self, repo_root, shims, src_rel="src"):
         self.repo_root = repo_root
@@ -602,8 +616,10 @@ class Interp(object):
         if isinstance(v, SuperProxy):
             return v.lookup(name)
         if isinstance(v, ClassVal):
-            if name == "__name__":
+            if name in ("__name__", "__qualname__"):
                 return v.name
+            if name == "__mro__":
+                return tuple(v.mro())
             if name == "__class__":
                 return type
             a, owner = v.find(name)
@@ -671,6 +687,14 @@ class Interp(object):
             if h is not None:
                 h(self, o, args, kwargs)
                 return o
+        if any(getattr(c, "dataclass_init", False) for c in cls.mro()):
+            from .shims import EqxModuleBase
+
+            EqxModuleBase.__axi_init__(self, o, args, kwargs)
+            post, _ = cls.find("__post_init__")
+            if post is not None:
+                post(o)
+            return o
         if args or kwargs:
             raise AbstractError("%s() takes no arguments" % cls.name)
         return o
@@ -679,9 +703,18 @@ class Interp(object):
     def call_func(self, f, args, kwargs):
         node = f.node
         if f.is_generator is None:
-            f.is_generator = any(isinstance(n, (ast.Yield, ast.YieldFrom)) for n in ast.walk(node)) if not isinstance(node, ast.Lambda) else False
-        if f.is_generator:
-            raise Unsupported("generator function %s" % f.qualname)
+            f.is_generator = _has_own_yield(node) if not isinstance(node, ast.Lambda) else False
+        if f.is_generator and not getattr(self, "_running_generator", None) is f:
+            # a generator is run eagerly: its yielded values are collected and handed back as an iterator (sound for
+            # the finite, side-effect-free generators a numerical library uses; `send` / lazy interleaving is not modelled)
+            prev = (getattr(self, "_running_generator", None), getattr(self, "_yielded", None))
+            self._running_generator, self._yielded = f, []
+            try:
+                self.call_func(f, args, kwargs)
+                out = self._yielded
+            finally:
+                self._running_generator, self._yielded = prev
+            return iter(out)
         env = Env(f.env if f.env is not None else f.module.__dict__["env"])
         self.bind_args(f, node.args, args, kwargs, env)
         path = f.module.__dict__["path"]
@@ -825,6 +858,7 @@ class Interp(object):
             return None
         if t is ast.While:
             n = 0
+            broke = False
             while self.truth(self.eval(st.test, env, func)):
                 n += 1
                 if n > 100000:
@@ -832,10 +866,13 @@ class Interp(object):
                 sig = self.exec_block(st.body, env, module, func)
                 if sig is not None:
                     if sig.kind == "break":
+                        broke = True
                         break
                     if sig.kind == "continue":
                         continue
                     return sig
+            if not broke and st.orelse:
+                return self.exec_block(st.orelse, env, module, func)
             return None
         if t is ast.Assert:
             ok = self.truth(self.eval(st.test, env, func))
@@ -922,20 +959,66 @@ class Interp(object):
             return self.exec_block(st.body, env, module, func)
         if t is ast.Try:
             # the protected body is interpreted; if the analysed code raises there, handlers are not modelled
+            pending = None
+            sig = None
             try:
                 sig = self.exec_block(st.body, env, module, func)
+                if sig is None and st.orelse:
+                    sig = self.exec_block(st.orelse, env, module, func)
             except REJECTIONS as e:
-                raise Unsupported("exception handling (try/except) around a raising statement: %s" % e)
-            if sig is None and st.orelse:
-                sig = self.exec_block(st.orelse, env, module, func)
+                # the analysed code raised inside the protected body: pick the handler Python would pick, when the
+                # exception class is known (raise <Builtin>(...), assert); otherwise the obligation is undecided
+                handler = None
+                for h in st.handlers:
+                    m = True if h.type is None else self._exc_matches(e, self.eval(h.type, env, func))
+                    if m is None:
+                        raise Unsupported("exception handling (try/except) around a raising statement whose exception class is not known: %s" % e)
+                    if m:
+                        handler = h
+                        break
+                if handler is None:
+                    pending = e
+                else:
+                    if handler.name:
+                        env.vars[handler.name] = e.exc if isinstance(e, AbstractRaise) and isinstance(e.exc, BaseException) else AssertionError(str(e)) if isinstance(e, AbstractAssert) else Exception(str(e))
+                    sig = self.exec_block(handler.body, env, module, func)
             if st.finalbody:
                 sig2 = self.exec_block(st.finalbody, env, module, func)
                 if sig2 is not None:
                     return sig2
+            if pending is not None:
+                raise pending
             return sig
         if t in (ast.Global, ast.Nonlocal):
-            raise Unsupported("global/nonlocal")
+            # later assignments to these names go to the scope that owns them
+            for name in st.names:
+                e = env.parent
+                if t is ast.Global:
+                    while e is not None and e.parent is not None:
+                        e = e.parent
+                else:
+                    while e is not None and name not in e.vars:
+                        e = e.parent
+                if e is None:
+                    raise Unsupported("no binding for %s %s" % ("global" if t is ast.Global else "nonlocal", name))
+                if env.redirect is None:
+                    env.redirect = {}
+                env.redirect[name] = e
+            return None
         raise Unsupported("statement %s" % t.__name__)
+
+    def _exc_matches(self, e, typ):
+        """Would `except typ` catch the abstract exception e?  True / False, or None when e's class is not known."""
+        types = typ if isinstance(typ, tuple) else (typ,)
+        if not all(isinstance(t, type) and issubclass(t, BaseException) for t in types):
+            return None
+        if isinstance(e, AbstractRaise) and isinstance(e.exc, BaseException):
+            return isinstance(e.exc, types)
+        if isinstance(e, AbstractAssert):
+            return any(issubclass(AssertionError, t) for t in types)
+        if any(t in (Exception, BaseException) for t in types):
+            return True
+        return None
 
     def _load_of(self, target):
         n = ast.parse(ast.unparse(target), mode="eval").body
@@ -961,7 +1044,10 @@ class Interp(object):
     def assign(self, tg, val, env, func):
         t = type(tg)
         if t is ast.Name:
-            env.vars[tg.id] = val
+            if env.redirect is not None and tg.id in env.redirect:
+                env.redirect[tg.id].vars[tg.id] = val
+            else:
+                env.vars[tg.id] = val
         elif t in (ast.Tuple, ast.List):
             items = list(self.iterate(val))
             star = [i for i, e in enumerate(tg.elts) if isinstance(e, ast.Starred)]
@@ -1064,13 +1150,17 @@ class Interp(object):
 
     def make_func_in_class(self, node, cenv, module, cls):
         a = node.args
-        # defaults are evaluated in the class scope; the function's closure is the module scope
+        # defaults are evaluated in the class scope
         defaults = [self.eval(d, cenv, None) for d in a.defaults]
         kwdefaults = {}
         for p, d in zip(a.kwonlyargs, a.kw_defaults):
             if d is not None:
                 kwdefaults[p.arg] = self.eval(d, cenv, None)
-        f = Func(self, node, module, None, defaults, kwdefaults, cls.name + "." + node.name, cls)
+        # the function's closure is the scope enclosing the class statement (the module scope for a top-level class,
+        # the defining function's scope for a class created inside a function) -- never the class scope itself
+        outer = cenv.parent
+        closure = outer if (outer is not None and outer.parent is not None) else None
+        f = Func(self, node, module, closure, defaults, kwdefaults, cls.name + "." + node.name, cls)
         res = f
         for d in reversed(node.decorator_list):
             dec = self.eval(d, cenv, None)
@@ -1208,6 +1298,16 @@ class Interp(object):
                 else:
                     d[self.eval(k, env, func)] = self.eval(v, env, func)
             return d
+        if t is ast.Yield:
+            if getattr(self, "_yielded", None) is None:
+                raise Unsupported("yield outside a generator run")
+            self._yielded.append(None if node.value is None else self.eval(node.value, env, func))
+            return None
+        if t is ast.YieldFrom:
+            if getattr(self, "_yielded", None) is None:
+                raise Unsupported("yield from outside a generator run")
+            self._yielded.extend(list(self.iterate(self.eval(node.value, env, func))))
+            return None
         if t is ast.IfExp:
             if self._branch(node.test, self.truth(self.eval(node.test, env, func))):
                 return self.eval(node.body, env, func)
@@ -1236,7 +1336,15 @@ class Interp(object):
                 else:
                     try:
                         val = self.eval(v.value, env, func)
-                        parts.append(str(val))
+                        if v.conversion == ord("r"):
+                            val = repr(val)
+                        elif v.conversion == ord("s"):
+                            val = str(val)
+                        spec = self.eval(v.format_spec, env, func) if v.format_spec is not None else ""
+                        try:
+                            parts.append(format(val, spec))
+                        except (TypeError, ValueError):
+                            parts.append(str(val))
                     except (Unsupported,):
                         parts.append("<?>")
             return "".join(parts)
